@@ -62,7 +62,7 @@ def _clauses(xs, default_props):
 
 
 class Loop:
-    def __init__(self, inv=(), variant=None, props=(), havoc=(), keep=(), frame=None, ghost_set=None, lemmas=()):
+    def __init__(self, inv=(), variant=None, props=(), havoc=(), keep=(), frame=None, ghost_set=None, lemmas=(), end_lemmas=()):
         self.inv = inv
         self.variant = variant
         self.props = props
@@ -71,6 +71,9 @@ class Loop:
         self.frame = dict(frame or {})
         self.ghost_set = dict(ghost_set or {})
         self.lemmas = list(lemmas)
+        # proof steps at the end of the loop body (each proved, then usable
+        # by the following ones and by the invariant-preservation obligations)
+        self.end_lemmas = list(end_lemmas)
 
 
 class FuncContract:
